@@ -197,17 +197,27 @@ type vfState struct {
 	forwarding bool
 	autoconf   bool
 	err        error
+	errOnce    bool // err is returned by the next call only (a transient failure)
+}
+
+// takeErr: the error of this call (mu held)
+func (s *vfState) takeErr() error {
+	err := s.err
+	if s.errOnce {
+		s.err, s.errOnce = nil, false
+	}
+	return err
 }
 
 func (s *vfState) IPv6Autoconf(string) (bool, error) {
 	s.mu.Lock()
 	defer s.mu.Unlock()
-	return s.autoconf, s.err
+	return s.autoconf, s.takeErr()
 }
 func (s *vfState) IPv6Forwarding(string) (bool, error) {
 	s.mu.Lock()
 	defer s.mu.Unlock()
-	return s.forwarding, s.err
+	return s.forwarding, s.takeErr()
 }
 func (s *vfState) SetIPv6Autoconf(string, bool) error { return nil }
 func (s *vfState) setForwarding(b bool) {
